@@ -55,8 +55,8 @@ RUSTFLAGS = '--cfg libp2p_verif --cfg sha2_backend="soft"'
 
 TIER_CAPS = {
     # per-harness wall-clock cap (s), address-space cap (GiB), parallel workers
-    "quick": dict(timeout=900, mem_gib=14, workers=8),
-    "thorough": dict(timeout=3600, mem_gib=24, workers=6),
+    "quick": dict(timeout=900, mem_gib=20, workers=8),
+    "thorough": dict(timeout=3600, mem_gib=32, workers=6),
 }
 
 
@@ -86,6 +86,7 @@ def harness_names(prop, tier):
     names = []
     for f in spec["files"]:
         text = open(os.path.join(VERIF, "harness", spec["group"], "src", f)).read()
+        text = re.sub(r"//[^\n]*", "", text)  # names mentioned in comments are not harnesses
         for m in re.finditer(r"\b(%s_[qt]_\w+)\b" % pid, text):
             n = m.group(1)
             if n not in names:
